@@ -140,8 +140,11 @@ func (ap *accountPool) addAccountBlockTransaction(transaction *nom.AccountBlockT
 		return fmt.Errorf(`%w reason:%v; frontier-identifier:%v; identifier:%v`, ErrFailedToAddAccountBlockTransaction, err, frontierIdentifier, identifier)
 	}
 	if trueBlock != nil && trueBlock.Identifier() == identifier {
-		log.Info("account-block is already inserted")
-		return nil
+		if !forceAdd || trueBlock.SameBytes(block) {
+			log.Info("account-block is already inserted")
+			return nil
+		}
+		// same identifier, other content in a field the hash doesn't cover: a forced insert replaces it
 	}
 
 	if err := ap.canRollback(block); err != nil {
